@@ -241,6 +241,8 @@ def run_scenarios(pid):
         bad = []
         if want is not None and got.strip() != want.strip():
             bad.append("output differs")
+        if "expect_stdout_any" in sc and got.strip() not in [w.strip() for w in sc["expect_stdout_any"]]:
+            bad.append("output is none of the accepted ones")
         if "expect_exit" in sc and rc != sc["expect_exit"]:
             bad.append("exit status %s, expected %s" % (rc, sc["expect_exit"]))
         if "expect_files" in sc and left != sorted(sc["expect_files"]):
@@ -249,7 +251,7 @@ def run_scenarios(pid):
             vs.append(dict(tags=[sc["key"]], nofail=False,
                            what="scenario %s: %s (%s)" % (os.path.basename(path), sc.get("what", ""), "; ".join(bad)),
                            replay=dict(kind="failing-input", check="scenario", case=dict(scenario=os.path.relpath(path, ROOT), files=sc.get("files"), script=sc["script"],
-                                                                                       expected=sc.get("expect_stdout"), observed=out[-3000:], exit=rc, files_left=left))))
+                                                                                       expected=sc.get("expect_stdout", sc.get("expect_stdout_any")), observed=out[-3000:], exit=rc, files_left=left))))
     return n, vs
 
 # ---------------------------------------------------------------------------------------------
